@@ -13,6 +13,7 @@ Record cobs := {
   co_state : state; co_sid : string; co_local : nat; co_remote : nat;
   co_closed : bool;         (* the client closed its connection *)
   co_est : bool;            (* Established() *)
+  co_client_panic : bool;   (* the high-level Client panicked while establishing over this script *)
   co_client : option bool   (* when run: the high-level Client, whose transport factory plays this script on every
                                connection, published a channel (Establish returned nil within its deadline) *)
 }.
@@ -28,6 +29,7 @@ Definition project (r : result) : cobs :=
      co_closed := existsb (fun e => match e with UClosed => true | _ => false end) t;
      co_est := state_eqb (uc_state c) SEstablished && uc_conn c;
      (* Client.buildChannel: a channel is published only if EstablishSession returned an established session *)
+     co_client_panic := false;
      co_client := Some (match out with CRet s => state_eqb (vs_state s) SEstablished | _ => false end) |}.
 Definition model_obs (c : ccase) : cobs := project (cestablish c_repaired (conf_of (q_conf c)) (q_script c)).
 
@@ -77,6 +79,7 @@ Definition cobs_eqb (a b : cobs) : bool :=
   | _ => state_eqb (co_state a) (co_state b) && String.eqb (co_sid a) (co_sid b) && Nat.eqb (co_local a) (co_local b) &&
          Nat.eqb (co_remote a) (co_remote b) && Bool.eqb (co_closed a) (co_closed b) && Bool.eqb (co_est a) (co_est b)
   end &&
+  Bool.eqb (co_client_panic a) (co_client_panic b) &&
   match co_client a, co_client b with
   | None, _ => true
   | Some x, Some y => Bool.eqb x y
@@ -111,7 +114,7 @@ Fixpoint last_taken (t : list cev) (acc : option sin) : option sin :=
 Definition check (c : ccase) : bool :=
   let ob := q_obs c in
   (* (a) never a panic *)
-  negb (oout_eqb (co_out ob) OPanic) &&
+  negb (oout_eqb (co_out ob) OPanic) && negb (co_client_panic ob) &&
   c08_walk (co_trace ob) true None false &&
   match co_out ob with
   | OBlocked => true
